@@ -1000,4 +1000,31 @@ def net_scenarios():
                         "sig": "abandoned-accept-consumed-connection",
                         "what": "net/accept with timeout was abandoned (%s); a client connected while F was blocked on B=%s" % (ab, b)}
             out.append(s)
+    # net/connect whose handshake cannot complete (the listener's accept queue is full, the kernel drops the SYN): the connect stays
+    # pending whatever else happens — in particular a garbage collection (gc clock mode: the collector's MARK visit of
+    # net_callback_connect at every poll) — until it is abandoned; afterwards F is resumed by B only
+    for ab in ("cancel", "deadline"):
+        for b in ("take", "sleep"):
+            s = Scenario("n-connect-%s-%s" % (ab, b))
+            s.meta = {"A": "connect", "B": b, "abandon": ab, "fire": "pass", "dirt": "none", "nest": "none"}
+            s.chan("cB", 0)
+            s.setup = ["(def port (string (verif/stall-listener)))"]
+            A = ("raw", '(net/connect "127.0.0.1" port)')
+            if ab == "deadline":
+                A = ("deadline", 10, A)
+            B = ("take", "cB") if b == "take" else ("sleep", 40)
+            M = [("spawn", "F", [A, B, ("sleep", 0)]), ("sleep", 10)]
+            if ab == "cancel":
+                M.append(("cancel", "F", "stop"))
+            M += [("sleep", 10), ("dump", "prefire"), ("sleep", 10), ("dump", "postfire"), ("sleep", 10)]
+            if b == "take":
+                M.append(("give", "cB", "vb"))
+            M += [("sleep", 30), ("dump", "final")]
+            s.main = M
+            s.expect = {"resumes": {"F": [(0, "nil"), (10, '"stop"' if ab == "cancel" else '"deadline_expired"'),
+                                          (40 if b == "take" else 50, ":vb" if b == "take" else "nil"), (40 if b == "take" else 50, "nil")]},
+                        "m_final": [],
+                        "sig": "pending-connect-completed-by-something-else",
+                        "what": "net/connect to a listener that does not answer was pending, then abandoned (%s), F blocked on B=%s" % (ab, b)}
+            out.append(s)
     return out
